@@ -10,6 +10,7 @@ package server
 // ParseBGPMessage, accumulated into a per-peer view. Shared by the C01/C02/C15/C17 harnesses.
 
 import (
+	"sync/atomic"
 	"context"
 	"fmt"
 	"net"
@@ -147,8 +148,8 @@ func (w *vWorld) local(p *table.Path) {
 }
 
 func (w *vWorld) now() time.Time {
-	w.tick++
-	return time.Unix(w.tsBase+w.tick, 0)
+	// atomic: the concurrent harness (zz_verif_c01conc_test.go) calls it from several goroutines
+	return time.Unix(w.tsBase+atomic.AddInt64(&w.tick, 1), 0)
 }
 
 // openFor builds the OPEN the remote side would have sent.
